@@ -2,7 +2,7 @@
    Statements only: for every method, target, header names and values (any code points, any length), every set of
    caller-supplied or suppressed automatic headers. *)
 From Coq Require Import String List NArith Bool.
-From V Require Import lib.PyStr model.ReqHead proofs.ReqHead_proofs gen.Gen_Inject gen.Gen_Body corr.Run_C10.
+From V Require Import lib.PyStr model.Url model.ReqHead model.Tunnel proofs.ReqHead_proofs proofs.Tunnel_proofs gen.Gen_Inject gen.Gen_Body corr.Run_C10.
 Import ListNotations.
 Local Open Scope N_scope.
 
@@ -45,6 +45,70 @@ Proof.
 Qed.
 Print Assumptions automatic_fields_rule.
 
+(* ---------- the CONNECT request a proxy is made to read (ProxyManager, https URLs) ---------- *)
+Definition BAD_HOST := or_nil Gen_Inject.tunnel_host_illegal_chars.
+Definition TOKEN := or_nil Gen_Inject.method_allowed_chars.
+Definition BAD_VALUE := or_nil Gen_Inject.tunnel_value_illegal_chars.
+
+(* set_tunnel checks the host and every proxy header before http.client keeps them; the host class has SP, CR and LF, the
+   value class CR and LF; the HTTP/2 name pattern is anchored with \Z, and putheader applies both checks before it keeps a field *)
+Theorem tunnel_and_h2_source_facts :
+  Gen_Inject.tunnel_validates = Some true /\
+  (memN SPc BAD_HOST && memN CR BAD_HOST && memN LF BAD_HOST && memN 0 BAD_HOST && memN 9 BAD_HOST && memN 127 BAD_HOST = true) /\
+  (memN CR BAD_VALUE && memN LF BAD_VALUE && memN 0 BAD_VALUE = true) /\
+  Gen_Inject.h2_name_anchored = Some true /\ Gen_Inject.h2_putheader_checks = Some true /\
+  Gen_Inject.h2_value_pattern = Some (str_of_string "[\0\x00\x0a\x0d\r\n]|^[ \r\n\t]|[ \r\n\t]$").
+Proof. vm_compute. repeat split. Qed.
+Print Assumptions tunnel_and_h2_source_facts.
+
+(* either set_tunnel refuses (nothing is written to the proxy), or what the proxy reads is exactly one CONNECT request whose
+   target is host:port and whose header lines are the caller's proxy headers, in order, followed by a Host line for the
+   target when they have none - for every host text, port and header list *)
+Theorem connect_request_reads_back : forall h p hs w,
+  connect_head true BAD_HOST TOKEN BAD_VALUE h p hs = inl w ->
+  read_request w = Some (CONNECT, authority h p, tunnel_fields h p hs, []).
+Proof. apply Tunnel_proofs.connect_head_reads_back; vm_compute; reflexivity. Qed.
+Print Assumptions connect_request_reads_back.
+
+(* the checks are what makes it so: without them a host with CR LF is written and the proxy reads another request *)
+Theorem connect_request_unchecked_refuted : exists h p hs w,
+  connect_head false BAD_HOST TOKEN BAD_VALUE h p hs = inl w /\
+  read_request w <> Some (CONNECT, authority h p, tunnel_fields h p hs, []).
+Proof.
+  exists (str_of_string "v.example" ++ [13; 10] ++ str_of_string "x-injected"), 443, []. eexists. split; [vm_compute; reflexivity|].
+  vm_compute. discriminate.
+Qed.
+Print Assumptions connect_request_unchecked_refuted.
+
+(* ---------- HTTP/2 header validity ---------- *)
+Definition H2CHARS := or_nil Gen_Inject.h2_name_chars.
+
+(* a field name putheader keeps is non-empty and made of visible ASCII only, without ':' and without upper-case letters
+   (so: no CR, LF, NUL, SP, HTAB, DEL, nothing above 126), for every name *)
+Theorem h2_kept_name_is_clean : forall n v l, h2_putheader true H2CHARS n v = Some l ->
+  l = ascii_lower n /\ n <> [] /\ forall c, In c l -> 32 < c < 127 /\ c <> COLONc /\ ~ (65 <= c <= 90).
+Proof.
+  intros n v l H. unfold h2_putheader in H. destruct (h2_name_ok true H2CHARS n) eqn:En; [|discriminate].
+  destruct (h2_value_ok v); [|discriminate]. inversion H; subst l. split; [reflexivity|].
+  apply (Tunnel_proofs.h2_accepted_name_is_clean H2CHARS); [vm_compute; reflexivity|exact En].
+Qed.
+Print Assumptions h2_kept_name_is_clean.
+
+(* a field value putheader keeps has no NUL, LF or CR anywhere and neither starts nor ends with SP or HTAB *)
+Theorem h2_kept_value_is_clean : forall n v l, h2_putheader true H2CHARS n v = Some l ->
+  (forall c, In c v -> c <> 0 /\ c <> LF /\ c <> CR) /\
+  (forall c r, v = c :: r -> is_spht c = false) /\ (forall c r, v = r ++ [c] -> is_spht c = false).
+Proof.
+  intros n v l H. unfold h2_putheader in H. destruct (h2_name_ok true H2CHARS n); [|discriminate].
+  destruct (h2_value_ok v) eqn:Ev; [|discriminate]. exact (Tunnel_proofs.h2_accepted_value_is_clean v Ev).
+Qed.
+Print Assumptions h2_kept_value_is_clean.
+
+(* with '$' instead of '\Z' at the end of the name pattern a name ending in LF is kept *)
+Theorem h2_unanchored_name_refuted : exists n v l, h2_putheader false H2CHARS n v = Some l /\ In LF l.
+Proof. exists [120; 10], [49], [120; 10]. split; [vm_compute; reflexivity|right; left; reflexivity]. Qed.
+Print Assumptions h2_unanchored_name_refuted.
+
 (* non-vacuity: hostile inputs that are refused, and folded values that are written and read back *)
 Definition S_ := str_of_string.
 Example refused :
@@ -58,4 +122,18 @@ Example folded_value_round_trip :
   | inl w => read_request w = Some (S_ "GET", S_ "/", [(HOST, S_ "h"); (AE, IDENTITY); (UA, S_ "ua"); (S_ "X-A", [97; 13; 10; 32; 98])], [])
   | inr _ => False
   end.
+Proof. vm_compute. reflexivity. Qed.
+Example connect_written_and_refused :
+  (match connect_head true BAD_HOST TOKEN BAD_VALUE (S_ "dest.example") 443 [(S_ "Proxy-Authorization", S_ "Basic abc")] with
+   | inl w => read_request w = Some (CONNECT, S_ "dest.example:443", [(S_ "Proxy-Authorization", S_ "Basic abc"); (HOST, S_ "dest.example:443")], [])
+   | inr _ => False end) /\
+  map (fun hh => match connect_head true BAD_HOST TOKEN BAD_VALUE (fst hh) 443 (snd hh) with inl _ => 0 | inr _ => 1 end)
+      [ (S_ "a b", []); (S_ "a" ++ [13; 10] ++ S_ "x", []); (S_ "a", [(S_ "X-P", [118; 13; 10; 73; 58; 49])]); (S_ "a", [(S_ "X P", S_ "1")]);
+        (S_ "a", [([], S_ "1")]); (S_ "a", [(S_ "X-P", [118; 13; 10; 32; 119])]) ] = [1; 1; 1; 1; 1; 1].
+Proof. vm_compute. split; reflexivity. Qed.
+Example h2_kept_and_refused :
+  map (fun nv => match h2_putheader true H2CHARS (fst nv) (snd nv) with Some _ => 0 | None => 1 end)
+      [ (S_ "X-Foo", S_ "bar"); (S_ "x-foo", [98; 32; 99]); (S_ "x-foo", []);
+        ([120; 10], S_ "1"); (S_ "x foo", S_ "1"); (S_ "x:foo", S_ "1"); ([], S_ "1"); (S_ "x", [49; 13; 10; 32; 50]); (S_ "x", [32; 49]); (S_ "x", [49; 9]); (S_ "x", [0]) ]
+  = [0; 0; 0; 1; 1; 1; 1; 1; 1; 1; 1].
 Proof. vm_compute. reflexivity. Qed.
